@@ -1,7 +1,9 @@
 """C10 — hash commands maintain an exact field-to-value map.
 Model: lean/RedisGoModel/Exec/Hash.lean (on Ds/HashSel.lean); theorems: lean/RedisGoModel/Props/C10.lean;
 tie: exec engine (server.Manager.ExecCommand + VerifDump hook).  HRANDFIELD and HINCRBYFLOAT are judged in checker mode."""
-from .. import core, execgen_hash, execsuite
+import random
+
+from .. import core, execgen_hash, execsuite, families
 
 
 def run(R, ctx):
@@ -9,10 +11,11 @@ def run(R, ctx):
         R, ctx, name="hash",
         gens=[(1, execgen_hash.hash_cmd)],
         nprog=(500, 8000), corpus="exec_c10",
+        extra_lines=families.refused_changes_nothing(random.Random(R.seed * 31 + 10), 120 if R.tier == "quick" else 2000),
         what="hash commands (HSET with one to four pairs incl. repeated fields and odd argument counts, HSETNX, HGET, HMGET, HGETALL, HKEYS, "
              "HVALS, HLEN, HEXISTS, HSTRLEN, HDEL down to the empty hash, HINCRBY at the int64 limits, HINCRBYFLOAT incl. inf/nan/overflow, "
              "HRANDFIELD with no/positive/negative/extreme counts and WITHVALUES) interleaved with SET/DEL/EXPIRE/PERSIST/TTL/TYPE/EXISTS/RENAME "
-             "on the same keys; fields and values from a binary alphabet with the empty string, numbers, extreme integers and floats")
+             "on the same keys; fields and values from a binary alphabet with the empty string, numbers, extreme integers and floats; refused-command scenarios followed by a full dump (a refused command changes nothing)")
 
 
 def replay(R, payload):
